@@ -417,7 +417,9 @@ impl RustCodeGenerator {
                                 .map(|b| format!("\\x{:02x}", b))
                                 .collect::<String>()
                         ),
-                        default => default.as_rust_const_literal(true).to_string(),
+                        // the rust model already holds rust names, mangling them a second time
+                        // is not stable for every name (`ABCd` would become `AbCd`)
+                        default => default.as_rust_const_literal(false).to_string(),
                     },
                 ],
             ),
